@@ -32,7 +32,7 @@ P = np.array([0.3, 0.05])
 # auxiliary array arguments (periods, shifts, travel times, query points ...): deliberately unsorted where the
 # function allows it, shared by all probes, snapshot-checked around every call and restored if a call modified them
 AUX0 = {'P': [0.3, 0.05], 'P3': [0.5, 0.1, 0.3], 'SH': [2, -1, 0], 'SH2': [2, 0], 'SH3': [2, 1], 'TT': [0.13, 0.05], 'TS': [0.2, 0.1],
-        'XQ': [1.5, 0.5], 'SF': [1.0, 0.5], 'UR': [1., .8], 'DR': [.5, 1.], 'TRIM_TT': [0.2, 0.1]}
+        'XQ': [1.5, 0.5], 'SF': [1.0, 0.5], 'NC': [5.0], 'B': [0.34, 0.1], 'CUTS': [0.5, 2.0], 'UR': [1., .8], 'DR': [.5, 1.], 'TRIM_TT': [0.2, 0.1]}
 AUX = {}
 
 
@@ -210,6 +210,10 @@ REG = [
     ('im.calc_cyc_amp_array_w_power_law', 2, lambda x, y: im.calc_cyc_amp_array_w_power_law(x, 5, 0.3)),
     ('im.calc_cyc_amp_gm_arrays_w_power_law', 2, lambda x, y: im.calc_cyc_amp_gm_arrays_w_power_law(x, y, 5, 0.3)),
     ('im.calc_cyc_amp_combined_arrays_w_power_law', 2, lambda x, y: im.calc_cyc_amp_combined_arrays_w_power_law(x, y, 5, 0.3)),
+    ('im.calc_cyc_amp_array_w_power_law(n_cyc array, b array)', 2, lambda x, y: im.calc_cyc_amp_array_w_power_law(x, AUX['NC'], AUX['B'])),
+    ('im.calc_cyc_amp_gm_arrays_w_power_law(n_cyc array)', 2, lambda x, y: im.calc_cyc_amp_gm_arrays_w_power_law(x, y, AUX['NC'], 0.3)),
+    ('im.calc_cyc_amp_combined_arrays_w_power_law(n_cyc array)', 2, lambda x, y: im.calc_cyc_amp_combined_arrays_w_power_law(x, y, AUX['NC'], 0.3)),
+    ('im.calc_n_cyc_array_w_power_law(b array)', 2, lambda x, y: im.calc_n_cyc_array_w_power_law(x, 1.0, AUX['B'])),
     ('pc.get_peak_array_indices', 2, lambda x, y: pc.get_peak_array_indices(x)),
     ('pc.get_peak_array_indices(max)', 2, lambda x, y: pc.get_peak_array_indices(x, 'max')),
     ('pc.get_zero_crossings_array_indices', 2, lambda x, y: pc.get_zero_crossings_array_indices(x)),
